@@ -84,10 +84,24 @@ impl Prop for C07 {
     }
 
     fn run_case(&mut self, _idx: u64, rng: &mut Rng, ctx: &mut Ctx) {
-        let s = rand_str(rng);
+        // one case in eight: a periodic string and a pattern that overlaps itself (occurrences that overlap
+        // an earlier one must still be found when the search starts behind it)
+        let periodic = rng.chance(1, 8);
+        let (s, t) = if periodic {
+            let unit: String = (0..1 + rng.usize(2)).map(|_| *rng.pick(&ATOMS[..])).collect();
+            let k = rng.range(3, 7) as usize;
+            let head = if rng.chance(1, 3) { rng.pick(&ATOMS[..]).to_string() } else { String::new() };
+            let uc = unit.chars().count();
+            let t = take(&unit.repeat(k), 0, uc + 1 + rng.usize(uc * (k - 2)));
+            (format!("{}{}{}", head, unit.repeat(k), if rng.chance(1, 3) { "Z" } else { "" }), t)
+        } else {
+            let s = rand_str(rng);
+            let n = s.chars().count();
+            let t = if rng.coin() { rand_str(rng) } else { take(&s, rng.usize(n + 1), rng.usize(4)) };
+            (s, t)
+        };
         let n = s.chars().count();
-        let t = if rng.coin() { rand_str(rng) } else { take(&s, rng.usize(n + 1), rng.usize(4)) };
-        let p = pos_val(rng, n);
+        let p = if periodic && rng.coin() { rng.range(1, n as i64 + 1) } else { pos_val(rng, n) };
         let l = pos_val(rng, n);
         let multibyte = s.len() != n || t.len() != t.chars().count();
         let boundary = p <= 1 || p >= n as i64 || l <= 0 || l >= n as i64;
